@@ -1,11 +1,14 @@
 \* C04 open-tunnel dispatcher: the complete product
 \*   identity (5: none = no handshake, noneHs = failed handshake) x credential (7: the five of the
 \*   statement + otherId = id of another mapping the stranger listens on + otherSecret = id and
-\*   secret of a third mapping the stranger is the target of) x mapping state (5) x tunnel state at
-\*   arrival (TSTATES; "remote" needs two nodes) x arrival order (2)
-\* = 5*7*5*4*2 = 1400 cells, plus the late classes (tunnel registered while the request is being
-\* served: lateLocal, lateRemote; request first, mapping active) 5*7*2 = 70 cells; each cell is a
-\* deterministic run of <= 6 steps.
+\*   secret of a third mapping the stranger is the target of) x mapping state (7: the five of the
+\*   statement + status "error" + a free-form status "suspended") x tunnel state at arrival
+\*   (TSTATES; "remote" needs two nodes) x arrival order (2)          = 5*7*7*4*2 = 1960 cells
+\* + late classes (tunnel registered while the request is being served: lateLocal, lateRemote;
+\*   request first, mapping active)                                     5*7*2     =   70 cells
+\* + mapping shapes noListen / noTarget (ListenClientID / TargetClientID = 0; tunnel state none)
+\*   5*7*7*2                                                                      =  490 cells
+\* each cell is a deterministic run of <= 6 steps.
 \* FIXES also knows "bindMappingPoll" (second half of patches/C04-3: the comparison on the record
 \* found while polling).
 \* FIXES / MASKED:  {} / TRUE  = tunnox-core as found (invariants hold "or a named deviation fired")
@@ -15,7 +18,9 @@ CONSTANTS
   FIXES = @@FIXES@@
   Idents = {"none", "noneHs", "listen", "target", "stranger"}
   Creds = {"idOnly", "rightSecret", "wrongSecret", "resume", "nothing", "otherId", "otherSecret"}
-  MStates = {"active", "revoked", "expired", "inactive", "missing"}
+  MStates = {"active", "revoked", "expired", "inactive", "error", "suspended", "missing"}
+  Shapes = {"std", "noListen", "noTarget"}
+  MUT = {}
   TStates = @@TSTATES@@
   Orders = {"legitFirst", "reqFirst"}
   Masked = @@MASKED@@
